@@ -94,6 +94,8 @@ struct Scene {
   SImg src, mask, dst;
   int sx = 0, sy = 0, mx = 0, my = 0, dx = 0, dy = 0, w = 1, h = 1;
   int mask_is_src = 0;  // "pixbuf" aliasing: the mask is the same image object as the source
+  int mask_shares_bits = 0;  // the mask is a second image object (its own format and properties) on the source's storage
+  int twin_primer = 0;       // (C02) the request is preceded, on the same thread, by its twin with a plain untransformed mask
   template <class A> void io(A &a) {
     a.f("op", op);
     a.f("has_mask", has_mask);
@@ -109,6 +111,8 @@ struct Scene {
     a.f("w", w);
     a.f("h", h);
     a.f("mask_is_src", mask_is_src);
+    a.f("mask_shares_bits", mask_shares_bits);
+    a.f("twin_primer", twin_primer);
   }
 };
 
@@ -335,7 +339,13 @@ inline void build(const Scene &sc, Built &b) {
   acclog().n = 0;
   acclog().calls = acclog().bad = 0;
   build_img(sc.src, b.s, false);
-  if (sc.has_mask && !sc.mask_is_src) build_img(sc.mask, b.m, false);
+  if (sc.has_mask && sc.mask_shares_bits && !sc.mask_is_src && b.s.im && b.s.bits && bpp(sc.mask.bits.code()) == bpp(sc.src.bits.code())) {
+    // GdkPixbuf-style data: the same pixels wrapped twice, once without and once with their alpha channel
+    b.m.im = pixman_image_create_bits(sc.mask.bits.code(), sc.src.bits.w, sc.src.bits.h, pixman_image_get_data(b.s.im), pixman_image_get_stride(b.s.im));
+    b.m.owned = true;
+    if (b.m.im) apply_props(b.m.im, sc.mask, b.m, false);
+  } else if (sc.has_mask && !sc.mask_is_src)
+    build_img(sc.mask, b.m, false);
   build_img(sc.dst, b.d, true);
   b.mask_im = sc.has_mask ? (sc.mask_is_src ? b.s.im : b.m.im) : nullptr;
   b.ok = b.s.im && b.d.im && (!sc.has_mask || b.mask_im);
@@ -430,6 +440,12 @@ inline std::vector<int64_t> gen_transform(int kind, int sw, int sh) {
     if (coin(30)) {
       m[2] += R(-3, 3) * 65536;
       m[5] += R(-3, 3) * 65536;
+    }
+    if (coin(30)) {
+      // translations by half a pixel (+- one unit): every sample position of the rotated grid lands on a pixel boundary,
+      // where the whole-image rotation routines must round as the per-pixel rule does (seeded C02v)
+      m[2] += pick<int64_t>({0, 32768, -32768, 32767, 32769, 1, -1});
+      m[5] += pick<int64_t>({0, 32768, -32768, 32767, 32769, 1, -1});
     }
     break;
   }
@@ -676,12 +692,18 @@ inline Scene gen_plain_scene(int maxw, int maxh) {
   // one request in six is shaped like the scaled nearest/bilinear fast-path families of the C, MMX and SSE2/SSSE3
   // implementations: SRC/OVER/ADD, 8888/565 source and destination, positive scale, no mask / an untransformed a8 mask with
   // runs of 0x00 and 0xff (the vector loops skip groups of fully transparent mask pixels) / a solid mask
-  bool scaled_family = coin(17);
-  sc.op = scaled_family ? pick<int>({PIXMAN_OP_SRC, PIXMAN_OP_OVER, PIXMAN_OP_OVER, PIXMAN_OP_ADD}) : coin(60) ? pick<int>({PIXMAN_OP_SRC, PIXMAN_OP_OVER, PIXMAN_OP_OVER, PIXMAN_OP_ADD}) : pick<int>({PIXMAN_OP_IN, PIXMAN_OP_IN_REVERSE, PIXMAN_OP_OUT_REVERSE, PIXMAN_OP_OVER_REVERSE, PIXMAN_OP_OUT, PIXMAN_OP_ATOP, PIXMAN_OP_XOR, PIXMAN_OP_CLEAR, PIXMAN_OP_SATURATE, PIXMAN_OP_MULTIPLY, PIXMAN_OP_SCREEN});
+  // ... and one in twenty-five like the whole-image rotation routines: SRC, no mask, same 8888/565/a8 format on both sides,
+  // an exact quarter-turn
+  bool rot_family = coin(4);
+  bool scaled_family = !rot_family && coin(17);
+  sc.op = rot_family ? (coin(85) ? (int)PIXMAN_OP_SRC : (int)PIXMAN_OP_OVER) : scaled_family ? pick<int>({PIXMAN_OP_SRC, PIXMAN_OP_OVER, PIXMAN_OP_OVER, PIXMAN_OP_ADD}) : coin(60) ? pick<int>({PIXMAN_OP_SRC, PIXMAN_OP_OVER, PIXMAN_OP_OVER, PIXMAN_OP_ADD}) : pick<int>({PIXMAN_OP_IN, PIXMAN_OP_IN_REVERSE, PIXMAN_OP_OUT_REVERSE, PIXMAN_OP_OVER_REVERSE, PIXMAN_OP_OUT, PIXMAN_OP_ATOP, PIXMAN_OP_XOR, PIXMAN_OP_CLEAR, PIXMAN_OP_SATURATE, PIXMAN_OP_MULTIPLY, PIXMAN_OP_SCREEN});
   sc.w = coin(45) ? WIDTHS[R(0, 14)] : (int)R(1, maxw);
   sc.h = (int)R(1, maxh);
   SImg &d = sc.dst;
-  d.bits = gen_bits(scaled_family && coin(85) ? fmt_index(pick<pixman_format_code_t>({PIXMAN_a8r8g8b8, PIXMAN_x8r8g8b8, PIXMAN_r5g6b5, PIXMAN_a8b8g8r8})) : wpick(DF, 13), 1, 1);
+  d.bits = gen_bits(rot_family && coin(85) ? fmt_index(pick<pixman_format_code_t>({PIXMAN_a8r8g8b8, PIXMAN_x8r8g8b8, PIXMAN_r5g6b5, PIXMAN_a8}))
+                    : scaled_family && coin(85) ? fmt_index(pick<pixman_format_code_t>({PIXMAN_a8r8g8b8, PIXMAN_x8r8g8b8, PIXMAN_r5g6b5, PIXMAN_a8b8g8r8}))
+                                                : wpick(DF, 13),
+                    1, 1);
   sc.dx = (int)R(0, 5);
   sc.dy = (int)R(0, 2);
   d.bits.w = sc.dx + sc.w + (int)R(0, 3);
@@ -702,7 +724,7 @@ inline Scene gen_plain_scene(int maxw, int maxh) {
       s.bits.h = sc.h + 2 + (int)R(0, 3);
       return;
     }
-    if (coin(scaled_family && !is_mask ? 0 : is_mask ? 30 : 25)) {
+    if (coin((scaled_family || rot_family) && !is_mask ? 0 : is_mask ? 30 : 25)) {
       s.kind = 1;
       s.color = u32();
       if (coin(35)) s.color |= 0xff000000;
@@ -716,6 +738,10 @@ inline Scene gen_plain_scene(int maxw, int maxh) {
     s.bits.fill = is_mask ? pickw({4, 4, 3, 3, 1, 1, 1, 6}) : pickw({4, 4, 3, 3, 1, 1, 1, 2});
     int tk = pickw({55, 22, 10, 5, 8});  // none, scale, rot90, affine, 1x1/repeat
     if (scaled_family && !is_mask) tk = 1;
+    if (rot_family && !is_mask) {
+      tk = 2;
+      if (coin(85)) s.bits.fmt = d.bits.fmt;
+    }
     s.bits.w = sc.w + (int)R(0, 8);
     s.bits.h = sc.h + (int)R(0, 3);
     if (is_mask && coin(40)) s.component_alpha = has_rgb(s.bits.code());
@@ -805,7 +831,36 @@ inline Scene gen_plain_scene(int maxw, int maxh) {
   gsrc(sc.src, false);
   sc.sx = pinned ? 4 : (int)R(0, 4);
   sc.sy = pinned ? 2 : (int)R(0, 2);
-  if (coin(45)) {
+  if (!rot_family && !scaled_family && coin(5)) {
+    // "pixbuf" requests: x888 pixels used as the source and, wrapped a second time as a8r8g8b8 / a8b8g8r8, as their own mask.
+    // The implementations have whole-operation routines for the case where both are taken at the same position; at
+    // different positions (in x or in y only) the general rule applies (seeded C02t)
+    SImg &s = sc.src;
+    s = SImg();
+    s.kind = 0;
+    s.bits = gen_bits(fmt_index(pick<pixman_format_code_t>({PIXMAN_x8b8g8r8, PIXMAN_x8r8g8b8, PIXMAN_x8b8g8r8, PIXMAN_a8r8g8b8})), 1, 1);
+    s.bits.w = sc.w + (int)R(0, 6);
+    s.bits.h = sc.h + (int)R(0, 3);
+    s.bits.fill = pickw({4, 4, 3, 3, 1, 1, 1, 2});
+    s.repeat = coin(70) ? 0 : (int)R(1, 3);
+    sc.has_mask = 1;
+    sc.mask_is_src = 0;
+    sc.mask_shares_bits = 1;
+    sc.mask = SImg();
+    sc.mask.kind = 0;
+    sc.mask.bits = s.bits;
+    sc.mask.bits.fmt = fmt_index(pick<pixman_format_code_t>({PIXMAN_a8b8g8r8, PIXMAN_a8r8g8b8}));
+    sc.mask.repeat = coin(90) ? s.repeat : (int)R(0, 3);
+    sc.mask.component_alpha = coin(10);
+    sc.op = coin(80) ? (int)PIXMAN_OP_OVER : pick<int>({PIXMAN_OP_SRC, PIXMAN_OP_ADD, PIXMAN_OP_IN});
+    if (coin(80)) d.bits.fmt = fmt_index(pick<pixman_format_code_t>({PIXMAN_a8r8g8b8, PIXMAN_x8r8g8b8, PIXMAN_r5g6b5, PIXMAN_a8b8g8r8, PIXMAN_x8b8g8r8}));
+    sc.sx = (int)R(0, 2);
+    sc.sy = (int)R(0, 2);
+    sc.mx = coin(60) ? sc.sx : (int)R(0, 2);
+    sc.my = coin(60) ? sc.sy : (int)R(0, 2);
+    return sc;
+  }
+  if (coin(rot_family ? 15 : 45)) {
     sc.has_mask = 1;
     if (coin(8) && sc.src.kind == 0 && !sc.src.has_transform) sc.mask_is_src = 1;
     else gsrc(sc.mask, true);
